@@ -232,6 +232,14 @@ def run(S):
     _docs = [d_ for d_ in _rp.EVAL_DOCS + _rp.MISC_DOCS + _dp.DOCS + _dp.CODE_DOCS + _rp.corpus_docs(S) if '$' in d_]
     _fr, _covr = _rp.explore(S, _docs, tabs=(2,) if S.tier == 'quick' else (2, 4), widths=(0, 40, 1 << 30) if S.tier == 'quick' else (0, 20, 40, 80, 120, 1 << 30), prop='C09')
     _rp.report(S, 'C09', _fr)
+    # generated families (construct x spelling x context x comment position, ~4000 well-formed documents): a sample that depends on VERIF_SEED in the
+    # quick tier, all of them in the thorough tier
+    from . import reparse as _rpf
+    _fam = _rpf.families(S, seed=S.seed, limit=300 if S.tier == 'quick' else None)
+    if 'C09' == 'C09':
+        _fam = [d_ for d_ in _fam if '$' in d_]
+    _ff, _covf = _rpf.explore(S, _fam, tabs=(2,), widths=(0, 1 << 30) if S.tier == 'quick' else (0, 20, 40, 80, 1 << 30), prop='C09')
+    _rpf.report(S, 'C09', _ff)
     return S.finish(level='other', explanation=EXPLANATION, trusted=['mirsym encoder', 'typst-syntax contracts', 'pretty Doc algebra'])
 
 
